@@ -346,6 +346,15 @@ def build(tier, seed):
             # finite differences on a subset only (cost)
             c['fd'] = (n_ids == 1) or tier == 'thorough' and n_ids == 2
             hc.append(c)
+    if tier == 'thorough':
+        # 4-dimensional bottom level (two-parameter error model): every sequence of
+        # one or two sub-models and every third longer one
+        for k_, spec in enumerate(hier.structures(4, hier.KINDS6)):
+            if spec['kind'] == 'Comp' and len(spec['parts']) > 2 and k_ % 3:
+                continue
+            c = hier.make_case(spec, 2, seed, err='CM')
+            c['fd'] = False
+            hc.append(c)
     bases = [rp.Comp([rp.G(1), rp.P(1), rp.LN(1, False)]),
              rp.Comp([rp.H(1), rp.G(2, False)]),
              rp.Comp([rp.Cov(rp.G(1)), rp.LN(1), rp.P(1)]),
